@@ -21,7 +21,27 @@ import (
 // variable that no injector uses and that is ill-formed.
 func genC19() *rapid.Generator[*Spec] {
 	return rapid.Custom(func(t *rapid.T) *Spec {
-		switch rapid.SampledFrom([]string{"wf", "wf", "c05", "c06", "c08", "c09", "c09", "c11", "badset", "badset", "badset", "chain", "chain"}).Draw(t, "family") {
+		switch rapid.SampledFrom([]string{"wf", "wf", "c05", "c06", "c08", "c09", "c09", "c11", "badset", "badset", "badset", "chain", "chain", "injshape"}).Draw(t, "family") {
+		case "injshape":
+			// an injector template with an unusual result list (none at all, two
+			// values, error first, ...): gen refuses it, check must too
+			s := baseWF(t, WFOpts{})
+			k := rapid.IntRange(0, len(s.Injectors)-1).Draw(t, "inj")
+			in := &s.Injectors[k]
+			switch rapid.SampledFrom([]string{"none", "none", "two", "errfirst", "cleanupfirst"}).Draw(t, "resultlist") {
+			case "none":
+				in.RawResults = []*Type{}
+			case "two":
+				in.RawResults = []*Type{in.Out, in.Out}
+			case "errfirst":
+				in.RawResults = []*Type{{K: "error"}, in.Out}
+			case "cleanupfirst":
+				in.RawResults = []*Type{Func(nil), in.Out}
+			}
+			in.ResNames = nil
+			s.Note = "C19 injshape"
+			refreshPlan(s)
+			return s
 		case "chain":
 			// the conventional layout: every package has `var Set`, each including the next package's
 			s := &Spec{ImportAlias: map[int]string{}, Pkgs: []Pkg{{Name: "app"}}}
